@@ -1,0 +1,31 @@
+//go:build verif
+
+package exec
+
+// Add-only verification hooks for property C17 (readers). Thin wrappers over
+// unexported identifiers; no behaviour of their own.
+
+import (
+	"context"
+
+	"github.com/grailbio/bigslice/frame"
+	"github.com/grailbio/bigslice/sliceio"
+	"github.com/grailbio/bigslice/slicetype"
+)
+
+// VerifC17TaskBufferReader returns taskBuffer(parts).Reader(partition).
+func VerifC17TaskBufferReader(parts [][]frame.Frame, partition int) sliceio.ReadCloser {
+	return taskBuffer(parts).Reader(partition)
+}
+
+// VerifC17MultiReader returns the executor-local multiReader over rs.
+func VerifC17MultiReader(rs []sliceio.Reader) sliceio.Reader {
+	return &multiReader{q: rs}
+}
+
+// VerifC17BufferOutput runs bufferOutput for an unpartitioned task of the
+// given type and returns the task buffer it built.
+func VerifC17BufferOutput(ctx context.Context, typ slicetype.Type, out sliceio.Reader) ([][]frame.Frame, error) {
+	buf, err := bufferOutput(ctx, &Task{Type: typ, NumPartition: 1}, out)
+	return [][]frame.Frame(buf), err
+}
